@@ -91,6 +91,12 @@ Theorem C07_all_keyed_sorts_total : forallb (fun x => snd x) gen_sorts = true.
 Proof. vm_compute. reflexivity. Qed.
 Print Assumptions C07_all_keyed_sorts_total.
 
+(* no order is derived from the spelling of user-supplied paths (which depends on the working directory), except where the
+   consumer ignores the order *)
+Theorem C07_all_path_sorts_modelled : forallb (fun x => path_sort_modelled x) gen_path_sorts = true.
+Proof. vm_compute. reflexivity. Qed.
+Print Assumptions C07_all_path_sorts_modelled.
+
 Theorem C07_all_ambient_reads_modelled :
   forallb (fun x => read_site_modelled (snd x)) gen_ambient_reads = true.
 Proof. vm_compute. reflexivity. Qed.
@@ -123,6 +129,15 @@ Proof.
   rewrite Hl. exact C07_py_clean_but_pickle.
 Qed.
 Print Assumptions C07_run_env_indep_py_partial.
+
+(* the state of the output directory is irrelevant too: whatever it held before (an earlier run with other options, at another
+   time), every generated path ends up with what a run into an empty directory writes *)
+Theorem C07_output_dir_history_irrelevant :
+  forall B tbl render fs0 e c I p,
+    In p (out_paths B gen_src_facts tbl render e c I) ->
+    files_into B gen_src_facts tbl render fs0 e c I p = files B gen_src_facts tbl render e c I p.
+Proof. intros. apply output_dir_history_irrelevant; [vm_compute; reflexivity | assumption]. Qed.
+Print Assumptions C07_output_dir_history_irrelevant.
 
 (* the same set of relative paths, unconditionally (auditing on or off, any table) *)
 Theorem C07_same_paths :
@@ -195,6 +210,23 @@ Theorem C07_template_sets_paths_refuted :
     <> files _ facts_tmplsets_paths tbl_tmplsets render0 e2 (cfg_user_templates LCpp) I p.
 Proof. exact template_sets_paths_refuted. Qed.
 Print Assumptions C07_template_sets_paths_refuted.
+
+(* --configuration files loaded in sorted() order of their spelling (cwd-dependent), and a support file kept because it already
+   exists in a reused output directory *)
+Theorem C07_config_sorted_by_spelling_refuted :
+  exists I e1 e2 p,
+    files _ facts_config_sorted [] render0 e1 (cfg_two_configs LC) I p
+    <> files _ facts_config_sorted [] render0 e2 (cfg_two_configs LC) I p.
+Proof. exact config_sorted_by_spelling_refuted. Qed.
+Print Assumptions C07_config_sorted_by_spelling_refuted.
+
+Theorem C07_support_kept_refuted :
+  exists I e p fs0,
+    In p (out_paths _ facts_support_kept [] render0 e (cfg_two_configs LC) I) /\
+    files_into _ facts_support_kept [] render0 fs0 e (cfg_two_configs LC) I p
+    <> files _ facts_support_kept [] render0 e (cfg_two_configs LC) I p.
+Proof. exact support_kept_refuted. Qed.
+Print Assumptions C07_support_kept_refuted.
 
 (* with --embed-auditing-info the files may differ: the premise is needed, and the model says so *)
 Theorem C07_audit_on_may_differ :
